@@ -72,7 +72,7 @@ def utype(u):
         return utype(u[1])
     if k == "concat":
         return "str"
-    if k in CMP or k in ISOPS or k in LIKES or k in ("between", "and", "or", "not", "in", "notin"):
+    if k in CMP or k in ISOPS or k in LIKES or k in ("between", "and", "or", "not", "in", "notin", "tin", "tnotin"):
         return "bool"
     if k == "case":
         for _, r in u[2]:
@@ -114,6 +114,8 @@ def children(u):
         return [u[2]]
     if k in ("in", "notin"):
         return [u[1]]
+    if k in ("tin", "tnotin"):
+        return list(u[1])
     raise ValueError(k)
 
 
@@ -160,6 +162,8 @@ class Neutral:
     B  ``~(a.is_(b))`` / ``~(a.is_not(b))`` with a general operand b
     C  a BETWEEN bound that is an operator expression
     D  an ``AsBoolean`` element used as operand of a binary/unary operator
+    F  (not a finding) a float-typed ``+``/``*`` nested under the same operator: flattening
+       re-associates floating point arithmetic, which the property is read modulo
     """
 
     def __init__(self, rules):
@@ -177,6 +181,12 @@ class Neutral:
         ):
             self.hits.add("C")
             return E.Grouping(ce)
+        if "F" in self.rules and parent in ("add", "mul") and cu[0] == parent and utype(cu) == "num":
+            # keep `a + (b + c)` / `a * (b * c)` nested: floating point + and * are not
+            # exactly associative, re-association may legitimately change the last bits
+            self.hits.add("F")
+            # a bare Grouping proxies `.operator` and would be flattened away again
+            return _SA["sa"].type_coerce(E.Grouping(ce), ce.type)
         if "D" in self.rules and isinstance(ce, E.AsBoolean):
             self.hits.add("D")
             return E.Grouping(ce)
@@ -293,6 +303,10 @@ def to_sa(u, neutral=None):
         return opd(1).in_(list(u[2]))
     if k == "notin":
         return opd(1).not_in(list(u[2]))
+    if k in ("tin", "tnotin"):
+        t = sa.tuple_(*[sub(c) for c in u[1]])
+        rows = [tuple(r) for r in u[2]]
+        return t.in_(rows) if k == "tin" else t.not_in(rows)
     raise ValueError(k)
 
 
@@ -456,6 +470,16 @@ def ref_sql(u):
         else:
             core = "(" + " OR ".join("(%s = %s)" % (x, sql_val(v)) for v in vals) + ")"
         return core if k == "in" else "(NOT %s)" % core
+    if k in ("tin", "tnotin"):
+        xs = [r(c) for c in u[1]]
+        rows = u[2]
+        if not rows:
+            core = "(0)"
+        else:
+            core = "(" + " OR ".join(
+                "(" + " AND ".join("(%s = %s)" % (x, sql_val(v)) for x, v in zip(xs, row)) + ")" for row in rows
+            ) + ")"
+        return core if k == "tin" else "(NOT %s)" % core
     raise ValueError(k)
 
 
@@ -508,6 +532,14 @@ def wire(u):
         for v in u[2]:
             out.append(wire_val(v))
         return out + wire(u[1])
+    if k in ("tin", "tnotin"):
+        out = [k, str(len(u[1])), str(len(u[2]))]
+        for row in u[2]:
+            for v in row:
+                out.append(wire_val(v))
+        for c in u[1]:
+            out += wire(c)
+        return out
     raise ValueError(k)
 
 
